@@ -117,9 +117,11 @@ func c15GenDocs(r *Rng, ptype string, large bool) []c15Doc {
 		x = r.Intn(80)
 	}
 	switch {
-	case x < 65:
+	case x < 45:
 		docs = append(docs, mk(c15GoodMeta(ptype)))
 	case x < 80:
+		// any served version of the type's meta kind: v1, and the older v1alpha1 / v1beta1 that the
+		// reconciler converts to the v1 hub
 		docs = append(docs, mk(Pick(r, k.metaOK[ptype])))
 	case x < 87:
 		docs = append(docs, mk(Pick(r, k.meta))) // any meta kind, often the wrong type
@@ -537,7 +539,67 @@ func c15Gen(r *Rng) c15Scn {
 				continue
 			}
 			a.Par = true
+			if c15CachePath(scn.Revs[a.R].Name) != c15CachePath(scn.Revs[b.R].Name) {
+				a.Nest = Pick(r, []string{"", "upd", "upd", "est"})
+			}
 			i++
+		}
+	}
+	return scn
+}
+
+// c15OldMeta: the meta kinds of a package type in the versions that are converted to the hub.
+func c15OldMeta(ptype string) []string {
+	var out []string
+	for _, g := range c15GetKinds().metaOK[ptype] {
+		if g != c15GoodMeta(ptype) {
+			out = append(out, g)
+		}
+	}
+	return out
+}
+
+// c15GenCrossTalk: two or three revisions of ONE package type whose packages differ in exactly the
+// respect a gate looks at (constraints met / not met / malformed / absent, kinds allowed or not,
+// old or current meta version), reconciled by the one long-lived reconciler of the type - nested
+// (one reconcile sits in its metadata Update or in Establish while the other runs from start to
+// end), free-running, or one after the other. Each verdict must depend on its own package only.
+func c15GenCrossTalk(r *Rng) c15Scn {
+	scn := c15Scn{Kind: "rev", Cfgs: []c15Cfg{}}
+	pt := Pick(r, c15PTypes)
+	k := c15GetKinds()
+	n := Pick(r, []int{2, 2, 3})
+	cons := []string{"out", "none", "in", "bad", "out", "in"}
+	off := r.Intn(len(cons))
+	for i := 0; i < n; i++ {
+		rev := c15GenRev(r, i, pt)
+		mg := c15GoodMeta(pt)
+		if old := c15OldMeta(pt); len(old) > 0 && !r.Chance(1, 5) {
+			mg = Pick(r, old)
+		}
+		con := cons[(off+i)%len(cons)]
+		rev.Docs = []c15Doc{{T: "meta", GVK: mg, Name: fmt.Sprintf("pkg-%s-%d", pt, i), Con: con}}
+		for j, m := 0, r.Range(1, 3); j < m; j++ {
+			g := Pick(r, k.allowed[pt])
+			if r.Chance(1, 8) {
+				g = Pick(r, k.obj)
+			}
+			rev.Docs = append(rev.Docs, c15Doc{T: "obj", GVK: g, Name: c15ObjName(g, 10*i+j)})
+		}
+		rev.Img, rev.Pre, rev.Never, rev.Ignore = Pick(r, []string{"annotated", "plain", "multi"}), Pick(r, []string{"cold", "cold", "warm"}), false, r.Chance(1, 8)
+		scn.Revs = append(scn.Revs, rev)
+	}
+	clean := c15Faults{Read: -1}
+	order := r.Perm(n)
+	for rounds := r.Range(1, 2); rounds > 0; rounds-- {
+		for _, i := range order {
+			scn.Steps = append(scn.Steps, c15Step{K: "rec", R: i, Active: true, F: clean})
+		}
+	}
+	for i := 0; i+1 < len(scn.Steps); i += 2 {
+		if scn.Steps[i].R != scn.Steps[i+1].R && !r.Chance(1, 5) {
+			scn.Steps[i].Par = true
+			scn.Steps[i].Nest = Pick(r, []string{"upd", "upd", "upd", "est", ""})
 		}
 	}
 	return scn
@@ -584,6 +646,9 @@ func c15Cls(scn *c15Scn, obs *c15Obs) string {
 		}
 		if s.Par {
 			fk["concurrent"] = true
+			if s.Nest != "" {
+				fk["nested:"+s.Nest] = true
+			}
 		}
 		if s.F.Init {
 			fk["init"] = true
@@ -625,7 +690,7 @@ func c15Cls(scn *c15Scn, obs *c15Obs) string {
 	// the dominant aspect of the history
 	fault := "nofault"
 	keys := c15SortedKeys(fk)
-	for _, pf := range []string{"env:", "getE:", "fin:", "est:", "upd:", "stat", "sig:", "cfgstep", "concurrent", "read", "store:", "get", "init", "del", "deleted", "inactive", "sig"} {
+	for _, pf := range []string{"nested:", "env:", "getE:", "fin:", "est:", "upd:", "stat", "sig:", "cfgstep", "concurrent", "read", "store:", "get", "init", "del", "deleted", "inactive", "sig"} {
 		for _, k := range keys {
 			if fault == "nofault" && strings.HasPrefix(k, pf) {
 				fault = k
@@ -950,6 +1015,11 @@ func init() {
 			}
 			if i%100 == 50 {
 				s := c15GenIDs(c.Rng)
+				c15Emit(c, &s, false)
+				continue
+			}
+			if i%12 == 7 {
+				s := c15GenCrossTalk(c.Rng)
 				c15Emit(c, &s, false)
 				continue
 			}
